@@ -129,6 +129,7 @@ type session struct {
 	agents  []*agentState
 	model   *poolModel
 	closeFn func()
+	dir     string
 
 	mu         sync.Mutex
 	settleLog  []settleCall
@@ -145,12 +146,31 @@ func newSession(t interface{ Fatalf(string, ...interface{}) }, cfg sessCfg, nAge
 		s.st = memory.New()
 	case "badger":
 		s.st = mustOpenBadger(t, "")
+	case "badgerdisk":
+		s.dir = tempDir("sess-")
+		s.st = mustOpenBadger(t, s.dir)
 	default:
 		t.Fatalf("unknown driver %q", cfg.Driver)
 	}
+	s.build(t)
+	for i := 0; i < nAgents; i++ {
+		s.agents = append(s.agents, &agentState{idx: i, id: nodeIdent(i)})
+	}
+	s.model = newPoolModel(cfg)
+	return s
+}
+
+// build (re)creates everything that sits on top of the store: balance store
+// proxy, manager, pool, payment service, RPC server.
+func (s *session) build(t interface{ Fatalf(string, ...interface{}) }) {
+	cfg := s.cfg
 	s.bal = s.st
 	if cfg.Deposits {
-		s.proxy = &depositProxy{AccountStore: s.st, deposits: map[store.Account]*big.Int{}}
+		if s.proxy == nil {
+			s.proxy = &depositProxy{AccountStore: s.st, deposits: map[store.Account]*big.Int{}}
+		} else {
+			s.proxy.AccountStore = s.st
+		}
 		s.bal = s.proxy
 	}
 	var mgr balance.Manager
@@ -208,11 +228,25 @@ func newSession(t interface{ Fatalf(string, ...interface{}) }, cfg sessCfg, nAge
 	if err := s.srv.Register("pool_", dash); err != nil {
 		t.Fatalf("register: %v", err)
 	}
-	for i := 0; i < nAgents; i++ {
-		s.agents = append(s.agents, &agentState{idx: i, id: nodeIdent(i)})
+}
+
+// reopen closes the on-disk store and opens it again, as a pool restart does:
+// all connections are gone, the pool object is new, the data must be there.
+func (s *session) reopen(t interface{ Fatalf(string, ...interface{}) }) {
+	for _, a := range s.agents {
+		for _, c := range a.conns {
+			if c.open {
+				c.c.Close()
+				c.open = false
+				s.model.closeConn(c.id)
+			}
+		}
 	}
-	s.model = newPoolModel(cfg)
-	return s
+	if err := s.st.Close(); err != nil {
+		t.Fatalf("close store: %v", err)
+	}
+	s.st = mustOpenBadger(t, s.dir)
+	s.build(t)
 }
 
 func (s *session) close() {
@@ -225,6 +259,9 @@ func (s *session) close() {
 		}
 	}
 	s.st.Close()
+	if s.dir != "" {
+		removeAll(s.dir)
+	}
 }
 
 // nonce returns a fresh nonce for id: the current (virtual) time, bumped so
